@@ -3427,6 +3427,16 @@ class BSP:
                 spr_scale = 1.0
                 shape_ang = 0
                 shape_size = 1
+            elif isinstance(prop, DetailPropShape):
+                # Must be checked before DetailPropSprite, which it is a subclass of.
+                mdl_ind = add_sprite(
+                    prop.dims_upper_left + prop.dims_lower_right +
+                    prop.texcoord_upper_left + prop.texcoord_lower_right
+                )
+                detail_type = 3 if prop.is_cross else 2
+                spr_scale = prop.sprite_scale
+                shape_ang = prop.shape_angle
+                shape_size = prop.shape_size
             elif isinstance(prop, DetailPropSprite):
                 mdl_ind = add_sprite(
                     prop.dims_upper_left + prop.dims_lower_right +
@@ -3436,15 +3446,6 @@ class BSP:
                 spr_scale = prop.sprite_scale
                 shape_ang = 0
                 shape_size = 1
-            elif isinstance(prop, DetailPropShape):
-                mdl_ind = add_sprite(
-                    prop.dims_upper_left + prop.dims_lower_right +
-                    prop.texcoord_upper_left + prop.texcoord_lower_right
-                )
-                detail_type = 3 if prop.is_cross else 2
-                spr_scale = prop.sprite_scale
-                shape_ang = prop.shape_angle
-                shape_size = prop.shape_size
             else:
                 raise TypeError(f'Unknown detail prop type {prop}!')
 
